@@ -14,6 +14,8 @@ A document is a *spec* (plain JSON, stored in the replay file):
    "units": [{"text": V, "title": V, "pics": [{"part": 0, "name": V, "title": V, "desc": V, "boxed": false, "w": L, "h": L}, ...]}, ...],
    "meta": {"title": V, "creator": V, "subject": V, "keywords": V, "description": V}}
 
+and optionally "xml": {"enc", "decl", "lead"} = the byte form every XML part of the package is written in (encoding stated in
+the XML declaration / BOM, quotes of the declaration, white space / comment before the root element; see `serialise_xml`);
 with V = null (absent) | "" (present, empty) | " " | "some text"; L (optional) = the size of the placement as the file
 spells it (ODF svg:width / svg:height, HTML / EPUB img width / height): null = attribute absent, otherwise ANY string of
 the lexical space of c04_values (units the library converts or not, hundreds of digits, other scripts' digits, junk).
@@ -70,13 +72,45 @@ def _media(spec, prefix):
     return out + [(f"{prefix}image{i}b.png", picture(i)) for i in al]
 
 
+# ----------------------------------------------------------------------------- how the XML parts are SERIALISED
+# One XML document (infoset) has many byte forms; XML 1.0 §4.3.3 lets the document state its encoding in the XML
+# declaration / a byte-order mark, and a conforming reader must honour it.  spec["xml"] = {"enc": E, "decl": D, "lead": W}
+# re-serialises EVERY XML part of the package (the text stays the same; only the bytes differ):
+#   E: utf-8 | utf-8-sig (BOM) | utf-16 (BOM, as Python writes it) | utf-16-be (BOM) | iso-8859-1 | windows-1252 | iso-8859-15 |
+#      us-ascii          — characters the encoding cannot express become character references (&#N;), which is legal XML;
+#   D: "double" | "single" (quotes of the declaration) | "standalone" | "none" (no declaration: utf-8 / utf-16 with BOM only);
+#   W: white space / comment / processing instruction between declaration and root element ("" | "\n" | "<!-- c -->\n" | ...).
+XML_ENCODINGS = ["utf-8", "utf-8-sig", "utf-16", "utf-16-be", "iso-8859-1", "windows-1252", "iso-8859-15", "us-ascii"]
+XML_DECLS = ["double", "single", "standalone", "none"]
+XML_LEADS = ["", "\n", "\r\n  ", "<!-- generated -->\n", "<?app hint?>"]
+_SER = None       # the serialisation of the document being built (set by build())
+
+
+def serialise_xml(text, ser):
+    """the bytes of one XML part under serialisation `ser` (None: as written, UTF-8)"""
+    if not ser:
+        return text.encode("utf-8")
+    import re
+    enc, decl, lead = ser.get("enc", "utf-8"), ser.get("decl", "double"), ser.get("lead", "")
+    body = re.sub(r"^\s*<\?xml[^>]*\?>", "", text, count=1)
+    label = {"utf-8-sig": "UTF-8", "utf-16": "UTF-16", "utf-16-be": "UTF-16", "utf-8": "UTF-8"}.get(enc, enc.upper() if enc.startswith("iso") else enc)
+    if decl == "none" and enc not in ("utf-8", "utf-8-sig", "utf-16", "utf-16-be"):
+        decl = "double"          # without a declaration only UTF-8 / UTF-16 can be recognised
+    head = {"double": f'<?xml version="1.0" encoding="{label}"?>', "single": f"<?xml version='1.0' encoding='{label}'?>",
+            "standalone": f'<?xml version="1.0" encoding="{label}" standalone="yes"?>', "none": ""}[decl]
+    doc = head + lead + body
+    if enc == "utf-16-be":
+        return b"\xfe\xff" + doc.encode("utf-16-be")
+    return doc.encode(enc, "xmlcharrefreplace")
+
+
 def _zip(members, stored_first=None):
     b = io.BytesIO()
     with zipfile.ZipFile(b, "w", zipfile.ZIP_DEFLATED) as z:
         if stored_first:
             z.writestr(zipfile.ZipInfo(stored_first[0]), stored_first[1], zipfile.ZIP_STORED)
         for n, d in members:
-            z.writestr(n, d)
+            z.writestr(n, serialise_xml(d, _SER) if isinstance(d, str) else d)
     return b.getvalue()
 
 
@@ -323,7 +357,32 @@ BUILDERS = {"docx": build_docx, "pptx": build_pptx, "xlsx": build_xlsx, "odt": b
 
 
 def build(spec):
-    return "gen." + spec["fmt"], BUILDERS[spec["fmt"]](spec)
+    global _SER
+    _SER = spec.get("xml")
+    try:
+        return "gen." + spec["fmt"], BUILDERS[spec["fmt"]](spec)
+    finally:
+        _SER = None
+
+
+ZIP_FORMATS = ["docx", "pptx", "xlsx", "odt", "odp", "ods", "odg", "epub"]
+SER_META = {"title": "Café Übersicht", "creator": "José Muñoz", "subject": "Prüfbericht § 7", "keywords": "naïve, façade, år — 日本 😀",
+            "description": "Résumé des données ¤ € ½"}
+
+
+def serialisation_specs(fmt, rng=None):
+    """one document per way of writing the XML parts down: every encoding (declaration form and what stands between
+    declaration and root element rotate; with `rng` drawn), all five document properties with characters outside ASCII —
+    some expressible in the single-byte encodings (so they are stored as BYTES of that encoding), some not (stored as
+    character references)"""
+    out = []
+    for i, enc in enumerate(XML_ENCODINGS):
+        decl = rng.choice(XML_DECLS) if rng else XML_DECLS[i % len(XML_DECLS)]
+        lead = rng.choice(XML_LEADS) if rng else XML_LEADS[i % len(XML_LEADS)]
+        out.append({"fmt": fmt, "parts": 1, "meta": dict(SER_META), "xml": {"enc": enc, "decl": decl, "lead": lead},
+                    "units": [{"text": "Überschrift ÿ", "title": "Títle é", "pics": [_pic(0, "näme", "títle", "dèsc")]},
+                              {"text": "zwei", "title": None, "pics": [_pic(0)]}]})
+    return out
 
 
 # ----------------------------------------------------------------------------- spec generators
@@ -405,7 +464,10 @@ def random_spec(rng, fmt, length=None):
             for p in u["pics"]:
                 if rng.random() < 0.5:
                     p["w"], p["h"] = length(rng), length(rng)
-    return {"fmt": fmt, "parts": parts, "units": units, "meta": meta}
+    spec = {"fmt": fmt, "parts": parts, "units": units, "meta": meta}
+    if fmt in ZIP_FORMATS and rng.random() < 0.35:   # the XML parts written down in another of their byte forms
+        spec["xml"] = {"enc": rng.choice(XML_ENCODINGS), "decl": rng.choice(XML_DECLS), "lead": rng.choice(XML_LEADS)}
+    return spec
 
 
 def shape(spec):
@@ -414,5 +476,6 @@ def shape(spec):
     used = [p["part"] for u in spec["units"] for p in u["pics"]]
     rep = sorted({k for k in used if used.count(k) > 1})
     empties = sorted({f"{it}={p.get(it)!r}" for u in spec["units"] for p in u["pics"] for it in ("name", "title", "desc") if p.get(it) in ("", " ")})
-    return (f"{spec['fmt']} with {len(spec['units'])} units, {n} picture placements of {spec['parts']} picture files"
+    ser = spec.get("xml")
+    return ((f"[XML parts written as {ser.get('enc')}, declaration {ser.get('decl')}, lead {ser.get('lead')!r}] " if ser else "") + f"{spec['fmt']} with {len(spec['units'])} units, {n} picture placements of {spec['parts']} picture files"
             + (f" (file(s) {rep} placed several times)" if rep else "") + (f", empty-but-present {', '.join(empties[:4])}" if empties else ""))
